@@ -11,7 +11,8 @@
      dump <file>                                  canonical dump, links reported
      view <file>                                  canonical dump of the fully resolved view
      mver old|cur                                 the matching code before / after /repo 180fd8e (default cur)
-     diff <f1> <f2> <opts>                        cgnsdiff's standard output; opts over d f c i, "-" for none
+     diff <f1> <f2> <opts> [<tol>]                cgnsdiff's standard output; opts over d f c i, "-" for none; tol = -t as the 16
+                                                  hex digits of the double
      diffds <f1> <ds1> <f2> <ds2> <opts>          dataset mode (opts may contain r)
    output: dump lines as harness/c09_ops.c prints them, closed by "E <status>". *)
 open Model
@@ -66,6 +67,11 @@ let rec build (d : int) (items : item list) : node list * item list =
 
 let with_kids root ks = match root with Node (n, l, t, d, da, _) -> Node (n, l, t, d, da, ks) | x -> x
 let fuel = nat_of_int 200
+(* -t: the 16 hex digits of the double atof yields; absent = 0.0 *)
+let rec z_of_hex (s : string) : z =
+  let n = Stdlib.String.length s in
+  let rec go i acc = if i >= n then acc else go (i + 1) (Z.add (Z.mul acc (z_of_int 16)) (z_of_int (hexval s.[i]))) in go 0 Z0
+let tol_of tl = match tl with t :: _ -> z_of_hex t | [] -> Z0
 
 let run () =
   let w : ((z list * node) list) ref = ref [] in
@@ -122,17 +128,17 @@ let run () =
                       | None -> print_string "E none\n")
          | None -> print_string "E err\n")
     | ["mver"; x] -> mv := (if x = "old" then MOld else MCur)
-    | ["diff"; f1; f2; opts] ->
+    | "diff" :: f1 :: f2 :: opts :: tl ->
         (* opts: a string over d f c i (or "-"); whole-file mode forces recurse *)
         let has c = Stdlib.String.contains opts c in
-        let o = { d_data = has 'd'; d_follow = has 'f'; d_case = has 'c'; d_space = has 'i'; d_recurse = true } in
+        let o = { d_data = has 'd'; d_follow = has 'f'; d_case = has 'c'; d_space = has 'i'; d_recurse = true; d_tol = tol_of tl } in
         print_string "B diff\n";
         Stdlib.List.iter print_dline (cgnsdiff Cur !mv o !w !w fuel (bytes_of_hex f1) (bytes_of_hex f2));
         print_string "E diff\n"
-    | ["diffds"; f1; ds1; f2; ds2; opts] ->
+    | "diffds" :: f1 :: ds1 :: f2 :: ds2 :: opts :: tl ->
         (* dataset mode: cgnsdiff [opts] file1 ds1 file2 ds2 ; r = -r *)
         let has c = Stdlib.String.contains opts c in
-        let o = { d_data = has 'd'; d_follow = has 'f'; d_case = has 'c'; d_space = has 'i'; d_recurse = has 'r' } in
+        let o = { d_data = has 'd'; d_follow = has 'f'; d_case = has 'c'; d_space = has 'i'; d_recurse = has 'r'; d_tol = tol_of tl } in
         print_string "B diffds\n";
         Stdlib.List.iter print_dline (cgnsdiff_ds Cur !mv o !w !w fuel (bytes_of_hex f1) (bytes_of_hex ds1) (bytes_of_hex f2) (bytes_of_hex ds2));
         print_string "E diffds\n"
